@@ -8,6 +8,12 @@ ASSUMPTIONS = [
     "instants lie in the era where the uint32 minute counter does not wrap (60 s <= t < (2^32-1)*60 s); the wrap corner is compared (W cases) but not claimed",
     "the jitter drawn by getCachedCiphers is not observable: the model runner accepts a lookup iff jitter 0 or max-1 explains it (monotone in the jitter)",
     "Go's time.Round / time.Unix are modelled by go_round and the unixToInternal constant and compared on every E case",
+    "age of the key-holding client underlay (UDP): packetUnderlayScheduleWindow_ns in M.gen.Consts is measured on the compiled NewPacketUnderlay (creation -> scheduler disable time; on the real clock the measurement is a bracket, resolved to the one whole millisecond inside it); the c08t driver measures the same window exactly under virtual time (K case) and compares it with the constant to the nanosecond, asks the real ScheduleController on an age grid with ns boundaries at 60 s and 120 s (P cases), and ages real client muxes whose first underlay is created at chosen phases of the key slot (U cases): every session the mux schedules is followed to its socket, its real open-session request is taken off the wire, keyed independently by the reference codec, and given to the real server-side StatelessDecryptor at server clock t+skew",
+    "the server side of the U cases is the real StatelessDecryptor (explicit clock through the verif hook) plus mathext.WithinRange on the stamped minute, not a whole server mux: one process has one clock, so a server that is behind the client cannot be run end to end. A server that is AHEAD by 60 s is run end to end (X cases): a real server mux receives every datagram of the ageing client 60 s after it was sent and must accept each session the client scheduled",
+    "the server tries the ciphers of its live sessions from the same source address before the three keys of its clock (PacketUnderlay.tryDecryptExistingSession), and forgets a closed session only when its event loop comes round (valid segment or 60..120 s read timeout) with a clean tick pending; such a session hides the age of the key. Model, theorems and oracle describe the server WITHOUT a live session of that client socket (the history in which the earlier sessions of the underlay are over); the X cases establish that state on the real server (sessions closed after 100 ms, a second client on another address makes the event loop come round before the next dial)",
+    "the mux reuses an underlay at random (multiplex factor 30): a dial that lands on a newer underlay is judged against that underlay's own creation instant; the model refuses any session scheduled onto an underlay older than the window, but does not require reuse",
+    "latency between dial and delivery is outside the property: the server reads the request at the client's send instant plus the skew (retransmissions of the same request later than the window are not judged)",
+    "TCP: a stream underlay's key is matched by the server once, on the first segment of the connection (discovery only while recv == nil), afterwards both ends run the stateful cipher; there is no scheduling window and no time slot is consulted for later sessions (S cases: a real client and server over simnet TCP, one connection aged to 600 s, new sessions still accepted). The only age is the dial-to-first-segment latency, covered for latency <= 60 s by C08_stream_first_segment_common_key; the default dialer timeout (10 s) is not read from the code",
 ]
 
 
@@ -17,10 +23,11 @@ def run(ctx):
 
 
 def search(ctx):
-    return [run_pair(ctx, "c08", PID, None, tier="thorough", seed=ctx.seed + 1000 + i, subdir="search%d" % i) for i in range(2)]
+    return [run_pair(ctx, "c08", PID, None, tier="thorough", seed=ctx.seed + 1000 + i, subdir="search%d" % i) for i in range(2)] + \
+           [run_pair(ctx, "c08t", PID, None, faketime=True, tier="thorough", seed=ctx.seed + 2000, subdir="searcht")]
 
 MANIFEST = dict(
-    text="Theorems over the KeyTime model (Go time.Round slots, uint32 minute stamps with wrap, WithinRange/Mid, the key cache and the per-decryptor cache) proved for all instants, skews, cache histories and jitter draws; constants regenerated from /repo; the model's executable definitions are compared with pkg/cipher and pkg/mathext on boundary grids and generated histories, and every case is also judged against the property text.",
-    note="Assumes Go's time.Round/Unix semantics as modelled (compared on every case), instants inside the non-wrapping uint32-minute era, jitter draws unobservable (acceptor at both extremes). PBKDF2/SHA-256/XChaCha20 used by the driver come from golang.org/x/crypto.",
-    technique="Coq proof (lia over Z with div/mod) of slot/timestamp/cache theorems + differential run of the extracted model against pkg/cipher",
+    text="Theorems over the KeyTime model (Go time.Round slots, uint32 minute stamps with wrap, WithinRange/Mid, the key cache and the per-decryptor cache, and the age of the key-holding client underlay against its scheduling window) proved for all instants, skews, underlay ages, cache histories and jitter draws; the window is shown to be the largest safe one (every larger window, in particular one whole refresh interval, is refuted by a witness); constants, including the measured scheduling window of a client UDP underlay, regenerated from /repo; the model's executable definitions are compared with pkg/cipher, pkg/mathext and, under virtual time, with real client muxes whose underlays are aged through the window, and every case is also judged against the property text.",
+    note="Assumes Go's time.Round/Unix semantics as modelled (compared on every case), instants inside the non-wrapping uint32-minute era, jitter draws unobservable (acceptor at both extremes), no latency between the client's send and the server's read, the server of the aged-underlay cases represented by the real StatelessDecryptor at an explicit clock. TCP underlays have no age dimension beyond the dial-to-first-segment latency (stated, shown on the real code without skew). PBKDF2/SHA-256/XChaCha20 used by the driver come from golang.org/x/crypto.",
+    technique="Coq proof (lia over Z with div/mod) of slot/timestamp/cache/underlay-age theorems + differential run of the extracted model against pkg/cipher and against real client muxes under Go's faketime runtime",
 )
